@@ -10,6 +10,7 @@ TRUSTED_BASE = [
     "XML documents are restricted to what the archive can carry and the model decides: member keys that are element names, canonical numeric text (scalar roots included since finding A01 was repaired by /repo b0f5582); element names of non-members follow the writer's convention value / array / object (xml_names)",
     "extraction: ExtrOcamlBasic only; N/Z/positive/nat stay extracted inductives",
     "trusted glue: coq/ArchCodec.v (class catalogue, value printing), ml/glue.ml, ml/arch_driver.ml, harness/drv_arch.cpp (C++ twin of the class catalogue, document encoders), harness/common.h, props/arch_common.py",
+    "XML attributes (AttributeValue members) are written in documents as members keyed '@name'; their path is the path of a child element of the same name (GetPath() of the attribute scope is the element's path)",
     "Email and PhoneNumber are mirrored for the correspondence and opaque in the theorems (the property fixes no semantics for them)",
 ]
 ASSUMPTIONS = [
@@ -61,7 +62,7 @@ def run(ctx, vlib):
     samples = [dict(case=cases[i], implementation=oi[i], model=om[i]) for i in range(0, min(len(cases), 4))]
     return dict(evaluations=len(cases) + n_stream, distinct_nontrivial=nt, samples=samples, classes=classes, failing=failing,
                 diffs=diffs, known_lines=known_lines, exhaustive=False,
-                rule="10 validated classes (flat, several failing rules per field, Email/PhoneNumber/lambda, nested, inside vector, inside map, same key twice, five-field for the caps, root array incl. CSV, nested-in-array-in-class) x random documents putting every field in {valid, at / just inside / just outside each Range, MinSize, MaxSize bound, absent, null, wrong type} x maxValidationErrors in {0,1,2,3,100} x {JSON, MsgPack, XML, CSV for the root array} x policies; plus the one-field-at-a-time bound neighbourhoods of the two flat classes; every MsgPack / JSON / XML case a second time through std::istream (implementation only, must equal the memory load); non-trivial = distinct case whose outcome is a ValidationException or another exception",
+                rule="12 validated classes (two of them XML only: members serialized with AttributeValue, also inside array items; flat, several failing rules per field, Email/PhoneNumber/lambda, nested, inside vector, inside map, same key twice, five-field for the caps, root array incl. CSV, nested-in-array-in-class) x random documents putting every field in {valid, at / just inside / just outside each Range, MinSize, MaxSize bound, absent, null, wrong type} x maxValidationErrors in {0,1,2,3,100} x {JSON, MsgPack, XML, CSV for the root array} x policies; plus the one-field-at-a-time bound neighbourhoods of the two flat classes; every MsgPack / JSON / XML case a second time through std::istream (implementation only, must equal the memory load); non-trivial = distinct case whose outcome is a ValidationException or another exception",
                 broken="correspondence arch model (ArchModel.v part 2) vs validators.h/key_value_proxy.h/serialization_context.h (drv_arch validate)")
 
 
